@@ -238,7 +238,7 @@ def split_cond(e: ast.AST, pol: bool = True) -> List[Tuple[ast.AST, bool]]:
     return [(e, pol)]
 
 
-def path_conds(ctx: Ctx, f: Func, node: ast.AST) -> List[Tuple[ast.AST, bool]]:
+def path_conds(ctx: Ctx, f: Func, node: ast.AST, _depth: int = 0) -> List[Tuple[ast.AST, bool]]:
     """What is known to hold whenever `node` (statement or expression in f's
     own scope, canonical form) is evaluated: atoms with polarity, collected from
     the tests of the enclosing if / while / conditional expressions /
@@ -302,6 +302,53 @@ def path_conds(ctx: Ctx, f: Func, node: ast.AST) -> List[Tuple[ast.AST, bool]]:
         if isinstance(cur, (ast.FunctionDef, ast.AsyncFunctionDef, ast.Lambda)):
             break
         child, cur = cur, parent_of(cur)
+    # flag variables: `v is None` (or `not v`) where the local v is bound only by plain assignments, exactly one of which
+    # stores None (a falsy constant) and all others a value that cannot be None (falsy): that one assignment was the
+    # last one executed, so what held there holds here (the assignment must not be inside a loop the use is outside of)
+    if _depth < 2:
+        for e, pol in list(out):
+            v = None
+            if pol and isinstance(e, ast.Compare) and len(e.ops) == 1 and isinstance(e.ops[0], ast.Is) and isinstance(e.left, ast.Name) \
+                    and isinstance(e.comparators[0], ast.Constant) and e.comparators[0].value is None:
+                v, mode = e.left.id, "none"
+            elif (not pol) and isinstance(e, ast.Name):
+                v, mode = e.id, "falsy"
+            if v is None:
+                continue
+            try:
+                bs = ctx.env.scope(f).bindings.get(v, [])
+            except Exception:
+                continue
+            if len(bs) < 2 or any(b.kind != "val" or b.expr is None for b in bs):
+                continue
+
+            def _is_flag(x: ast.AST) -> bool:
+                return isinstance(x, ast.Constant) and (x.value is None if mode == "none" else not x.value)
+
+            def _never_flag(x: ast.AST) -> bool:
+                if isinstance(x, ast.JoinedStr):
+                    return mode == "none" or any(isinstance(p_, ast.Constant) and p_.value for p_ in x.values)
+                if isinstance(x, ast.Constant):
+                    return (x.value is not None) if mode == "none" else bool(x.value)
+                return False
+
+            flags = [b for b in bs if _is_flag(b.expr)]
+            if len(flags) != 1 or not all(_never_flag(b.expr) for b in bs if b is not flags[0]):
+                continue
+            st = parent_of(flags[0].expr)
+            if not isinstance(st, (ast.Assign, ast.AnnAssign)):
+                continue
+            # the assignment is not inside a loop (its last execution is its only one)
+            q = parent_of(st)
+            in_loop = False
+            while q is not None and q is not top:
+                if isinstance(q, (ast.For, ast.While, ast.comprehension)):
+                    in_loop = True
+                q = parent_of(q)
+            if in_loop:
+                continue
+            for a_, p_ in path_conds(ctx, f, st, _depth=_depth + 1):
+                out.append((a_, p_))
     # unit resolution: not (A and B) with A known -> not B;  (A or B) with not A known -> B
     for _ in range(3):
         known = {(norm(e), pol) for e, pol in out}
@@ -599,3 +646,51 @@ def stands_for_params(ctx: Ctx, f: Func, name: str, depth: int = 2) -> Set[str]:
         if b.kind == "val" and isinstance(b.expr, ast.Name):
             out |= stands_for_params(ctx, f, b.expr.id, depth - 1)
     return out
+
+
+# ------------------------------------------------------------------ new options
+def new_params(f: Func) -> Set[str]:
+    """Parameters of f that the reference tree's f does not have (a *new option* added by a feature commit).  What a
+    new option does when it is used is not stated by any property; the pin rules read the behaviour with every new option
+    at its default.  Empty for functions the reference does not have."""
+    from ..known_funcs import KNOWN_PARAMS
+
+    ref = KNOWN_PARAMS.get(f"{f.top.module}:{f.top.qualname}")
+    if ref is None:
+        return set()
+    return {p for p in f.top.param_names() if p not in ref and p != f.top.self_name}
+
+
+def only_with_new_option(f: Func, conds: List[Tuple[ast.AST, bool]]) -> bool:
+    """The path conditions require a new option of f to differ from its default (falsy default and the option is tested
+    truthy; default None and the option is tested `is not None`): the statement never runs for a call the reference accepts."""
+    np_ = new_params(f)
+    if not np_:
+        return False
+    for e, pol in conds:
+        if isinstance(e, ast.Name) and e.id in np_ and pol:
+            d = f.top.param_default(e.id)
+            if d is not None and isinstance(d, ast.Constant) and not d.value:
+                return True
+        if isinstance(e, ast.Compare) and len(e.ops) == 1 and isinstance(e.left, ast.Name) and e.left.id in np_ \
+                and isinstance(e.comparators[0], ast.Constant) and e.comparators[0].value is None:
+            d = f.top.param_default(e.left.id)
+            if d is not None and isinstance(d, ast.Constant) and d.value is None:
+                if (isinstance(e.ops[0], ast.Is) and not pol) or (isinstance(e.ops[0], ast.IsNot) and pol):
+                    return True
+    return False
+
+
+def strip_new_options(f: Func, call: ast.AST) -> ast.AST:
+    """`call` without the keyword arguments that merely hand on a new option of f (`g(x, flag=flag)` with `flag` a
+    parameter the reference's f does not have): with the option at its default this is the reference's call, provided
+    the callee's default is the same - which LSP-SIG / the callee's own clauses look at."""
+    np_ = new_params(f)
+    if not np_ or not isinstance(call, ast.Call):
+        return call
+    kws = [k for k in call.keywords if not (k.arg is not None and isinstance(k.value, ast.Name) and k.value.id in np_)]
+    if len(kws) == len(call.keywords):
+        return call
+    c2 = ast.Call(func=call.func, args=call.args, keywords=kws)
+    ast.copy_location(c2, call)
+    return c2
